@@ -142,6 +142,10 @@ def _run_case(case):
         A = zoo.resolve_A_inv(b) + b.A_out
         # maps evaluated by additions and multiplications only (affine layers, permutations, affine couplings / autoregressive
         # layers, whose inverse is D exact passes) round-trip to a few ulps times the conditioning; spline inverses solve equations
+        # a spline stage rounds absolutely at the scale of its box ((x - left) / (right - left)), however small the value itself is;
+        # later stages may amplify that by their conditioning (two LeakyReLU^-1 of slope 0.01: 1e4)
+        from vf.props.c19 import _abs_scale
+        BOXS = _abs_scale(case["spec"])
         EPSF = 1e-11 if case["spec"]["t"] in ("ar_affine", "c_affine", "c_additive", "paffine", "naive", "lu", "perm", "revperm", "randperm", "identity") else 1e-8
         fo = lambda Z: m(Z, ctx)[0]  # noqa
 
@@ -194,7 +198,7 @@ def _run_case(case):
                         res.labels.append("illcond")
                         continue
                     err = float((xh[i] - X[i]).abs().max())
-                    tol = EPSF * (float(y[i].abs().max()) * kJi + float(X[i].abs().max()) + 1e-4) + A * max(1.0, kJi)
+                    tol = EPSF * (float(y[i].abs().max()) * kJi + float(X[i].abs().max()) + 1e-4) + A * max(1.0, kJi) + 1e-14 * BOXS * kJi
                     res.see_ratio(err, tol)
                     if err > tol:
                         res.fail("roundtrip_x", site, "row %d: |inverse(forward(x)) - x| = %.3g > %.3g (kappa=%.3g, A=%.3g)" % (i, err, tol, kJi, A),
@@ -273,7 +277,7 @@ def _run_case(case):
                         res.inconclusive += 1
                         continue
                     err = float((y1[i] - Y[i]).abs().max())
-                    tol = EPSF * (float(x0[i].abs().max()) * kJ + float(Y[i].abs().max()) + 1e-4) + A * max(1.0, kJ)
+                    tol = EPSF * (float(x0[i].abs().max()) * kJ + float(Y[i].abs().max()) + 1e-4) + A * max(1.0, kJ) + 1e-14 * BOXS * kJ
                     res.see_ratio(err, tol)
                     if err > tol:
                         res.fail("roundtrip_y", site, "row %d: |forward(inverse(y)) - y| = %.3g > %.3g (kappa=%.3g, A=%.3g)" % (i, err, tol, kJ, A),
